@@ -108,19 +108,31 @@ theorem loop_passes (s : Script) (fuel : Nat) (c : Cond) (b : Comp) (σ σ' : St
       Passes (condEval s c) (fun x => andThen (exec s fuel b x) bump) n σ1 σ' :=
   exec_loop_ok_iff s fuel c b σ σ'
 
-/-- Counter: if the body contains no further loop and none of its leaves touches `Iterations`,
-the counter visible after the loop is the counter visible before plus the number of completed passes. -/
+/-- Counter: if the body contains no further loop outside a scope (loops inside scopes are fine:
+they count on their own counter) and none of its leaves touches `Iterations`, the counter visible
+after the loop is the counter visible before plus the number of completed passes. -/
 theorem loop_counter (s : Script) (fuel : Nat) (c : Cond) (b : Comp)
-    (hb : b.sat Act.offCounter (fun _ => true) false = true) (σ σ' : St)
+    (hb : b.sat Act.offCounter (fun _ => true) true = true) (hl : b.hasLoop = false) (σ σ' : St)
     (h : exec s fuel (.loop c b) σ = (σ', .ok)) :
-    ∃ n, n < fuel ∧ σ'.reg.get? 0 = (σ.reg.get? 0).map (· + n) := by
+    ∃ n, n < fuel ∧ Passes (condEval s c) (fun x => andThen (exec s fuel b x) bump) n
+        (condPhase s .cinit c σ).1 σ' ∧
+      σ'.reg.get? 0 = (σ.reg.get? 0).map (· + n) := by
   obtain ⟨σ1, n, h1, hn, hp⟩ := (exec_loop_ok_iff s fuel c b σ σ').mp h
-  refine ⟨n, hn, ?_⟩
+  refine ⟨n, hn, by rw [h1]; exact hp, ?_⟩
   have hreg : σ1.reg = σ.reg := by have := condPhase_reg s .cinit c σ; rw [h1] at this; exact this
   rw [← hreg]
   refine passes_counter (fun x => condEval_reg s c x) (fun x y hxy => ?_) hp
-  have := exec_counter_same s fuel b hb x
+  have := exec_counter_same' s fuel b hb hl x
   rw [hxy] at this; exact this
+
+/-- A scope never changes the counters its caller sees, at any depth and for every outcome, as long
+as no leaf writes `Iterations`: every loop inside the scope counts on a counter of the scope's own
+child state (the documented way to nest loops). -/
+theorem scope_keeps_counters (s : Script) (fuel : Nat) (b : Comp)
+    (hb : b.sat Act.offCounter (fun _ => true) true = true) (σ : St) :
+    (exec s fuel (.scope b) σ).1.reg.map (fun m => Scope.get? m 0) = σ.reg.map (fun m => Scope.get? m 0) ∧
+    (exec s fuel (.scope b) σ).1.reg.get? 0 = σ.reg.get? 0 :=
+  ⟨scope_profile s fuel b hb σ, get0_of_profile _ _ (scope_profile s fuel b hb σ)⟩
 
 /-- Pass count: for a loop over a single scripted condition that occurs nowhere in its body, the
 number of passes is read off the script — the values consumed are `true` once per pass and `false`
@@ -212,7 +224,8 @@ example : exBody.sat (Act.spares 1) (fun _ => true) true = true := by decide
 example : (exState.reg.get? 1).isSome = true := by decide
 example : (exec exScript 5 (.scope exBody) exState).1.reg = [[(2, 9), (1, 100)]] := by decide
 example : (exec exScript 5 (.scope exBody) exState).1.reg.get? 0 = none := by decide
-example : (Comp.leaf 2 [.set .exec 2 9]).sat Act.offCounter (fun _ => true) false = true := by decide
+example : (Comp.scope exBody).sat Act.offCounter (fun _ => true) true = true ∧ (Comp.scope exBody).hasLoop = false := by decide
+example : exBody.sat Act.offCounter (fun _ => true) true = true := by decide
 example : (Comp.leaf 2 [.set .exec 2 9]).sat (fun _ => true) (Cond.avoids 101) true = true := by decide
 example : (exec exScript 5 (.loop (.leaf 101) (.leaf 2 [.set .exec 2 9])) { exState with reg := [[(0, 0)]] }).2 = .ok := by
   decide
